@@ -138,8 +138,11 @@ var timeTableWide = []timeEntry{
 	{"2262", mustTime("2262-04-11T23:47:16Z")},
 }
 
-// zone offsets in seconds; index 0 is UTC
-var zoneTable = []int{0, 2 * 3600, -7 * 3600, 5*3600 + 45*60}
+// zone offsets in seconds; index 0 is UTC.  The last entry (a sub-minute offset west of UTC) is only
+// used by the witness of a known finding: generators draw from the first genZones entries.
+var zoneTable = []int{0, 2 * 3600, -7 * 3600, 5*3600 + 45*60, 19*60 + 32, -(4*3600 + 56*60 + 2)}
+
+const genZones = 5
 
 // ---------------------------------------------------------------- the universe of one trace
 
